@@ -4,4 +4,6 @@ go 1.18
 
 require mltwist v0.0.0
 
+require golang.org/x/exp v0.0.0-20240404231335-c0f41cb1a7a0 // indirect
+
 replace mltwist => /repo
